@@ -87,6 +87,8 @@ pub struct SimReader<'a> {
     cur_eintr_run: u64,
     pub exact_mib_read: bool,
     pub hard_after_mib: bool,
+    /// some read on a non-empty buffer returned Ok(0): the only way a caller can learn that the stream ended
+    pub signalled_eof: bool,
 }
 
 impl<'a> SimReader<'a> {
@@ -114,6 +116,7 @@ impl<'a> SimReader<'a> {
             cur_eintr_run: 0,
             exact_mib_read: false,
             hard_after_mib: false,
+            signalled_eof: false,
         }
     }
     fn deliver(&mut self, buf: &mut [u8], k: usize) -> usize {
@@ -135,6 +138,15 @@ impl<'a> SimReader<'a> {
 
 impl Read for SimReader<'_> {
     fn read(&mut self, buf: &mut [u8]) -> io::Result<usize> {
+        let r = self.read_inner(buf);
+        if matches!(r, Ok(0)) && !buf.is_empty() {
+            self.signalled_eof = true;
+        }
+        r
+    }
+}
+impl SimReader<'_> {
+    fn read_inner(&mut self, buf: &mut [u8]) -> io::Result<usize> {
         self.calls += 1;
         if self.calls > self.budget {
             panic!("SIM-BUDGET: reader called {} times, budget {}", self.calls, self.budget);
@@ -283,8 +295,20 @@ impl Scenario for C12 {
         if eintr {
             let bursts = r.range(1, 4);
             for _ in 0..bursts {
-                let at = r.below(script.len() as u64 + 1) as usize;
-                let run = if r.chance(1, 1024) { 1000 } else if r.chance(1, 8) { r.range(3, 50) } else { r.range(1, 2) };
+                let mut at = r.below(script.len() as u64 + 1) as usize;
+                if r.chance(1, 8) {
+                    // bias: right after a delivery that can fill the whole 1 MiB buffer (state: buffer just flushed)
+                    if let Some(p) = script.iter().position(|e| matches!(e, Ev::Deliver(k) if *k as usize >= MIB)) {
+                        at = p + 1;
+                    }
+                }
+                let run = if r.chance(1, 64) {
+                    *r.pick(&[15u64, 16, 17, 31, 32, 33, 63, 64, 65, 100, 127, 128, 129, 255, 256, 257, 1000])
+                } else if r.chance(1, 8) {
+                    r.range(3, 50)
+                } else {
+                    r.range(1, 2)
+                };
                 for _ in 0..run {
                     script.insert(at, Ev::Eintr);
                 }
@@ -413,7 +437,11 @@ impl Scenario for C12 {
                                 Err(tlsh::GeneratorOrIOError::IOError(e)) => format!("IOError({:?})", e.kind()),
                             };
                             fnv.write(gots.as_bytes());
-                            if gots != want {
+                            if !rd.signalled_eof {
+                                // no hard error, yet a result was produced although no read ever returned Ok(0):
+                                // the helper stopped reading a stream that had not ended
+                                mk("stopped-before-end-of-stream", format!("a result ({gots}) was returned after {} read calls although the reader never signalled end of stream (no hard error injected; {} of {} bytes delivered)", rd.calls, rd.pos, data.len()))
+                            } else if gots != want {
                                 let class = if gots.starts_with("IOError(Interrupted") {
                                     "eintr-propagated".to_string()
                                 } else if gots.starts_with("IOError") {
